@@ -74,7 +74,10 @@ TrCJacEnd ==
   /\ CJacEnd
   /\ Consume
   \* no Jacobian unless the cache is present and every derivative evaluated (C03/C09)
-  /\ G({"C09", "C03"}, Ev.present => (CJacPresent \/ (phase \in {"built", "done"} /\ MemoOk)))
+  \* (without derivative calls only from a legitimate memo, or when the coefficients are exactly zero:
+  \* every column -(I-P) W D_k C then vanishes whatever the derivatives are - a lazy implementation
+  \* that does not ask the model is correct)
+  /\ G({"C09", "C03"}, Ev.present => (CJacPresent \/ (phase \in {"built", "done"} /\ (MemoOk \/ Ev.czero))))
   \* a problem with a present cache delivers its Jacobian, whatever its history (C10), in particular
   \* the problem a fit handed back (C04: the final problem, C02: one single state)
   /\ G({"C10", "C04", "C02", "C09"}, CJacDue => Ev.present)
